@@ -397,6 +397,24 @@ class Check(Property):
         ref_a, ref_b = observe(a), observe(b)
         if ref_a != ref_b:
             v.append("C18 a deep-copied registry answers differently from its source right after the copy")
+        # groups and systems of the copy belong to the copy: a group created in one registry appears there and only there
+        for made_in, other_reg, lbl in ((b, a, "the copy"), (a, b, "the source")):
+            gname = "c18_" + ("copy" if made_in is b else "src")
+            try:
+                g = made_in.get_group(gname)
+                g.add_units("foot")
+                got = sorted(str(x) for x in made_in.get_compatible_units("meter", gname))
+                if got != ["foot"] or gname in other_reg._groups or gname not in made_in._groups:
+                    v.append(f"C18 a group created in {lbl} of a deep-copied pair: restricted listing {got}, known to the other registry: "
+                             f"{gname in other_reg._groups}, known to its own: {gname in made_in._groups}")
+            except Exception as exc:  # noqa: BLE001
+                v.append(f"C18 creating the group {gname} in {lbl} of a deep-copied pair raised {type(exc).__name__}: {exc}")
+        for r_, lbl in ((a, "source"), (b, "copy")):
+            for kind, objs in (("group", r_._groups), ("system", r_._systems)):
+                wrong = [n for n, o in objs.items() if getattr(type(o), "_REGISTRY", r_) is not r_]
+                if wrong:
+                    v.append(f"C18 deep-copied pair: the {kind} objects {wrong[:3]} of the {lbl} are bound to the other registry")
+                    break
         target, other, ref_other = (a, b, ref_b) if rng.random() < 0.5 else (b, a, ref_a)
         for _ in range(rng.randint(1, 4)):
             r = rng.random()
